@@ -67,20 +67,51 @@ package ratelimit
 //@ func (*Backoff).isBackoff
 //@   property C09
 //@   requires BO(l)
+//@   modifies gnow
+//@   ensures gnow >= old(gnow)
 //@   ensures in-backoff-only-above-count: ok ==> chas[l.hitCounters.cache][key] &&
 //@             deref(asptr(cval[l.hitCounters.cache][key], atomic.Uint64)) >= l.count
+// From the property statement ("has exceeded the limit often enough WITHIN THE
+// BACKOFF PERIOD"): the hits that put a subnet into backoff are counted from
+// the moment its hit counter was created (its expiration minus the hit
+// cache's lifetime); they all lie within one backoff period - which is the
+// lifetime of the request-counter cache - before now.
+//@   ensures hits-are-counted-within-one-backoff-period: ok && cdef[l.hitCounters.cache] > 0 && cexp[l.hitCounters.cache][key] > 0 ==>
+//@             gnow - (cexp[l.hitCounters.cache][key] - cdef[l.hitCounters.cache]) <= cdef[l.reqCounters.cache]
 
 //@ func (*Backoff).incBackoff
 //@   property C09
 //@   requires BO(l)
-//@   modifies chas[l.hitCounters.cache], cval[l.hitCounters.cache], allcells(atomic.Uint64)
-//@   ensures BO(l) && chas[l.hitCounters.cache][key]
+//@   modifies chas[l.hitCounters.cache], cval[l.hitCounters.cache], cexp[l.hitCounters.cache], gnow, allcells(atomic.Uint64)
+//@   ensures BO(l) && chas[l.hitCounters.cache][key] && gnow >= old(gnow)
 //@   ensures only-this-key: forall j string :: j != key ==> chas[l.hitCounters.cache][j] == old(chas[l.hitCounters.cache][j]) && cval[l.hitCounters.cache][j] == old(cval[l.hitCounters.cache][j])
 
+// The wall clock, as this package sees it: time.Now reads the clock the cache
+// reads (gnow, never decreasing).
+//@ import time time
+//@ func time.Now
+//@   modifies gnow
+//@   ensures unixNano(result) == gnow && gnow >= old(gnow) && gnow >= 0
+// lastEvt[c][k]: when the latest event of subnet k was recorded in cache c
+// (evtSeen: whether there has been one).
+//@ ghost lastEvt map[Ref]map[string]int
+//@ ghost evtSeen map[Ref]map[string]bool
+// From the property statement ("dropped exactly when its subnet has already
+// had the configured number of events within the interval" - no late pass): a
+// subnet's window is started afresh only when none of its recorded events lies
+// within the interval any more.
+// HI: the ghost history agrees with the cache - a subnet with a recorded event
+// has (had) an entry, and no event lies in the future.
+//@ pred HI(l *Backoff) = forall k string :: evtSeen[l.reqCounters.cache][k] ==> chas[l.reqCounters.cache][k] && lastEvt[l.reqCounters.cache][k] <= gnow
 //@ func (*Backoff).hasHitRateLimit
 //@   property C09
+//@   requires HI(l) && ivl > 0
+//@   ensures HI(l)
+//@   atcall NewRequestCounter assert no-event-within-the-interval-is-forgotten: evtSeen[l.reqCounters.cache][subnetIPStr] ==> gnow - lastEvt[l.reqCounters.cache][subnetIPStr] > ivl
+//@   atcall Add set lastEvt[l.reqCounters.cache][subnetIPStr] = unixNano(arg1)
+//@   atcall Add set evtSeen[l.reqCounters.cache][subnetIPStr] = true
 //@   requires BO(l) && count < 9223372036854775807
-//@   modifies chas[l.reqCounters.cache], cval[l.reqCounters.cache], chas[l.hitCounters.cache], cval[l.hitCounters.cache], allcells(atomic.Uint64), rk, rlog,
+//@   modifies chas[l.reqCounters.cache], cval[l.reqCounters.cache], chas[l.hitCounters.cache], cval[l.hitCounters.cache], cexp[l.reqCounters.cache], cexp[l.hitCounters.cache], gnow, lastEvt, evtSeen, allcells(atomic.Uint64), rk, rlog,
 //@            container.RingBuffer[int64].cur, container.RingBuffer[int64].full, allelems(int64)
 //@   ensures BO(l)
 //@   ensures only-this-key: forall j string :: j != subnetIPStr ==>
@@ -107,8 +138,9 @@ package ratelimit
 //@   property C09
 //@   ghostset limChecks = limChecks + 1
 //@   ensures offered-once: limChecks == old(limChecks) + 1
-//@   requires BO(l) && req != nil && len(req.Question) >= 1
-//@   modifies chas[l.reqCounters.cache], cval[l.reqCounters.cache], chas[l.hitCounters.cache], cval[l.hitCounters.cache], allcells(atomic.Uint64), rk, rlog,
+//@   requires BO(l) && req != nil && len(req.Question) >= 1 && HI(l) && l.ipv4Interval > 0 && l.ipv6Interval > 0
+//@   ensures HI(l)
+//@   modifies chas[l.reqCounters.cache], cval[l.reqCounters.cache], chas[l.hitCounters.cache], cval[l.hitCounters.cache], cexp[l.reqCounters.cache], cexp[l.hitCounters.cache], gnow, lastEvt, evtSeen, allcells(atomic.Uint64), rk, rlog,
 //@            container.RingBuffer[int64].cur, container.RingBuffer[int64].full, allelems(int64), limChecks
 //@   ensures BO(l)
 //@   ensures invalid-address-is-an-error: !addrValid(ip) ==> err != nil && !drop && !allowlisted
@@ -124,12 +156,13 @@ package ratelimit
 
 //@ func (*Backoff).CountResponses
 //@   property C09 C20
-//@   requires BO(l) && resp != nil && len(resp.Question) >= 1 && l.respSzEst > 0
-//@   modifies chas[l.reqCounters.cache], cval[l.reqCounters.cache], chas[l.hitCounters.cache], cval[l.hitCounters.cache], allcells(atomic.Uint64), rk, rlog,
+//@   requires BO(l) && resp != nil && len(resp.Question) >= 1 && l.respSzEst > 0 && HI(l) && l.ipv4Interval > 0 && l.ipv6Interval > 0
+//@   ensures HI(l)
+//@   modifies chas[l.reqCounters.cache], cval[l.reqCounters.cache], chas[l.hitCounters.cache], cval[l.hitCounters.cache], cexp[l.reqCounters.cache], cexp[l.hitCounters.cache], gnow, lastEvt, evtSeen, allcells(atomic.Uint64), rk, rlog,
 //@            container.RingBuffer[int64].cur, container.RingBuffer[int64].full, allelems(int64), limChecks, lastMsgLen
 //@   ensures BO(l)
 //@   ensures a-large-response-counts-as-every-one-of-its-estimated-responses: limChecks == old(limChecks) + lastMsgLen / l.respSzEst
-//@   loop 1 invariant BO(l) && len(resp.Question) >= 1 && lastMsgLen >= 0
+//@   loop 1 invariant BO(l) && len(resp.Question) >= 1 && lastMsgLen >= 0 && HI(l)
 //@   loop 1 invariant 0 <= #n && #n < lastMsgLen / l.respSzEst && limChecks == old(limChecks) + #n
 
 // window-exact: for a non-decreasing history, "the event n-1 positions before
@@ -155,6 +188,10 @@ package ratelimit
 //@      c.IPv4Count < 9223372036854775807 && c.IPv6Count < 9223372036854775807
 
 //@ func NewBackoff
-//@   property C20
+//@   property C20 C09
 //@   requires BackoffPre(c)
+//@   modifies cdef
 //@   ensures BO(l) && l.respSzEst > 0 && fresh(l)
+// The request counters live for the backoff period, the hit counters for the
+// backoff duration.
+//@   ensures cdef[l.reqCounters.cache] == c.Period && cdef[l.hitCounters.cache] == c.Duration
